@@ -46,6 +46,31 @@ Complete(c, o) ==
 ResultEv(c) ==
   (IF gout[c] = "ok" THEN [res |-> "ok", val |-> gid[c], rq |-> c] ELSE [res |-> "err", kind |-> "inner1", val |-> gid[c]])
   @@ [e |-> "poll", c |-> c, t |-> now, ns |-> 0, nd |-> (IF Cancel THEN 1 ELSE 0), ndr |-> 0]
+\* The property is silent on whether the inner call starts in Service::call or at the first poll (the deadline
+\* counts from the first poll either way): "created1" = inner call started, timer not armed yet.
+CreateEager(c, k) ==
+  /\ st[c] = "idle" /\ st' = [st EXCEPT ![c] = "created1"] /\ key' = [key EXCEPT ![c] = k]
+  /\ gid' = [gid EXCEPT ![c] = ngate + 1] /\ ngate' = ngate + 1 /\ gout' = [gout EXCEPT ![c] = "pending"]
+  /\ ev' = [e |-> "create", c |-> c, key |-> k, t |-> now, res |-> "created", ns |-> 1, si |-> ngate + 1, sc |-> c, nd |-> 0, ndr |-> 0]
+  /\ UNCHANGED <<cfg, now, deadline, doneAt>>
+CompleteEarly(c, o) ==
+  /\ st[c] = "created1" /\ gout[c] = "pending" /\ gout' = [gout EXCEPT ![c] = o] /\ doneAt' = [doneAt EXCEPT ![c] = now]
+  /\ ev' = [e |-> "complete", c |-> c, i |-> gid[c], out |-> o, t |-> now, ns |-> 0, nd |-> 0, ndr |-> 0]
+  /\ UNCHANGED <<cfg, now, st, key, deadline, gid, ngate>>
+\* first poll of an eagerly started call: the timer is armed now; an inner result that is already there is passed on
+\* (cancel mode: by this poll; detached mode: the task takes it over in this poll and the next poll returns it)
+FirstPollEager(c) ==
+  /\ st[c] = "created1"
+  /\ deadline' = [deadline EXCEPT ![c] = now + Tof(c)]
+  /\ LET have == gout[c] \in {"ok", "e1"} IN
+     IF Cancel
+     THEN IF have THEN (st' = [st EXCEPT ![c] = "done"] /\ ev' = ResultEv(c))
+          ELSE IF Tof(c) = 0 THEN (st' = [st EXCEPT ![c] = "done"] /\ ev' = TimeoutEv(c, 0, 1))
+          ELSE (st' = [st EXCEPT ![c] = "running"] /\ ev' = [e |-> "poll", c |-> c, t |-> now, res |-> "pending", ns |-> 0, nd |-> 0, ndr |-> 0])
+     ELSE IF Tof(c) = 0
+          THEN (st' = [st EXCEPT ![c] = IF have THEN "done" ELSE "bg"] /\ ev' = [nd |-> IF have THEN 1 ELSE 0] @@ TimeoutEv(c, 0, 0))
+          ELSE (st' = [st EXCEPT ![c] = "running"] /\ ev' = [e |-> "poll", c |-> c, t |-> now, res |-> "pending", ns |-> 0, nd |-> (IF have THEN 1 ELSE 0), ndr |-> 0])
+  /\ UNCHANGED <<cfg, now, key, doneAt, gout, gid, ngate>>
 Lazy == "lazy" \in DOMAIN cfg /\ cfg.lazy = 1      \* runs in which the executor may poll late (cancel mode only)
 PollResolve(c) ==
   /\ st[c] = "running"
@@ -61,16 +86,16 @@ PollStutter(c) ==
   /\ ev' = [e |-> "poll", c |-> c, t |-> now, res |-> "pending", ns |-> 0, nd |-> 0, ndr |-> 0]
   /\ UNCHANGED <<cfg, now, st, key, deadline, doneAt, gout, gid, ngate>>
 Drop(c) ==
-  /\ st[c] \in {"created", "running"}
+  /\ st[c] \in {"created", "running", "created1"}
   /\ st' = [st EXCEPT ![c] = IF st[c] = "running" /\ ~Cancel /\ gout[c] = "pending" THEN "bg" ELSE "done"]
-  /\ ev' = [e |-> "drop", c |-> c, t |-> now, ns |-> 0, nd |-> 0, ndr |-> (IF st[c] = "running" /\ Cancel THEN 1 ELSE 0)]
+  /\ ev' = [e |-> "drop", c |-> c, t |-> now, ns |-> 0, nd |-> 0, ndr |-> (IF (st[c] = "running" /\ Cancel) \/ st[c] = "created1" THEN 1 ELSE 0)]
   /\ UNCHANGED <<cfg, now, key, deadline, doneAt, gout, gid, ngate>>
-Quiescent == \A c \in Callers : st[c] # "created" /\ ~(st[c] = "running" /\ (gout[c] # "pending" \/ now >= deadline[c]))
+Quiescent == \A c \in Callers : st[c] # "created" /\ st[c] # "created1" /\ ~(st[c] = "running" /\ (gout[c] # "pending" \/ now >= deadline[c]))
 Advance(d) ==
   /\ d > 0 /\ (Lazy \/ (Quiescent /\ \A c \in Callers : st[c] = "running" => now + d <= deadline[c]))
   /\ now' = now + d /\ ev' = [e |-> "advance", d |-> d, t |-> now + d, ns |-> 0, nd |-> 0, ndr |-> 0]
   /\ UNCHANGED <<cfg, st, key, deadline, doneAt, gout, gid, ngate>>
-PollAny(c) == FirstPoll(c) \/ PollResolve(c) \/ PollStutter(c)
+PollAny(c) == FirstPoll(c) \/ PollResolve(c) \/ PollStutter(c) \/ FirstPollEager(c)
 Next ==
   \/ \E c \in Callers : (\E k \in Keys : Create(c, k)) \/ FirstPoll(c) \/ PollResolve(c) \/ Drop(c)
   \/ \E c \in Callers, o \in Outs : Complete(c, o)
